@@ -102,7 +102,7 @@ func GenKnobsFor(r *core.Rand, replicas int, profile string) GenKnobs {
 				esc = need + 1
 			}
 		} else {
-			esc = need + 1000 + uint64(r.Range(0, 5000))
+			esc = need + 1_000_000 + uint64(r.Range(0, 5000)) // anchors out-stake everybody else
 		}
 		k.EntityEscrow = append(k.EntityEscrow, esc)
 		k.EntityBalance = append(k.EntityBalance, uint64(r.Range(1000, 50_000)))
@@ -216,6 +216,9 @@ func (e Engine) Generate(r *core.Rand, tier core.Tier) *core.Scenario {
 		}
 		if r.Chance(1, 15) {
 			b.Evidence = r.Range(1, 64)
+		}
+		if r.Chance(1, 12) {
+			b.Byz = []string{"meta-missing", "meta-duplicate", "meta-wrong-root", "meta-wrong-events", "meta-wrong-signer"}[r.Intn(5)]
 		}
 		for i, n := 0, r.Pick([]int{4, 3, 2, 1}); i < n; i++ {
 			b.Steps = append(b.Steps, Step{Replica: r.Intn(nrep), Call: r.Range(1, 12), Kind: []string{"checktx", "recheck", "query", "prune", "query"}[r.Intn(5)], Arg: r.Intn(1000)})
